@@ -45,6 +45,28 @@ theorem below_taskEdges (m t : Nat) (td : TaskD) : (taskEdges m t td).all belowO
   | sleep s => simp [taskEdges, belowOk, below, fld]
   | recv b => cases b <;> simp [taskEdges, belowOk, below, fld]
 
+theorem below_afnEdges (cb : Bool) (m t : Nat) (a : Option AfnD) :
+    (afnEdges cb m t a).all belowOk = true := by
+  cases a with
+  | none => simp [afnEdges]
+  | some a =>
+    unfold afnEdges
+    simp only [List.all_cons, List.all_append, Bool.and_eq_true]
+    refine ⟨by simp [belowOk, below, fld], ?_, ?_⟩
+    · rw [List.all_flatMap, List.all_eq_true]
+      rintro ⟨k, msg⟩ _
+      simp [below_msgEdges]
+      simp [belowOk, below, fld]
+    · cases a.alive
+      · simp
+      · simp only [if_true, List.all_append, Bool.and_eq_true]
+        refine ⟨⟨⟨by simp [belowOk, below, fld], ?_⟩, by cases cb <;> simp [belowOk, below, fld]⟩, ?_⟩
+        · cases a.sleeping <;> simp [belowOk, below, fld]
+        · rw [List.all_flatMap, List.all_eq_true]
+          rintro ⟨k, msg⟩ _
+          simp [below_msgEdges]
+          simp [belowOk, below, fld]
+
 theorem below_modEdges (d : Desc) (m : Nat) (md : ModD) : (modEdges d m md).all belowOk = true := by
   unfold modEdges
   simp only [List.all_append, Bool.and_eq_true]
@@ -58,8 +80,8 @@ theorem below_modEdges (d : Desc) (m : Nat) (md : ModD) : (modEdges d m md).all 
   · simp [belowOk, below, fld]
   · simp [List.all_flatMap, belowOk, below, fld]
   · split
-    · simp only [List.all_cons, List.all_flatMap, Bool.and_eq_true]
-      refine ⟨by simp [belowOk, below, fld], ?_⟩
+    · simp only [List.all_cons, List.all_append, List.all_flatMap, Bool.and_eq_true]
+      refine ⟨by simp [belowOk, below, fld], ?_, below_afnEdges _ m _ _⟩
       rw [List.all_eq_true]
       rintro ⟨t, td⟩ _
       exact below_taskEdges m t td
